@@ -106,6 +106,7 @@ class PathMgr:
         self.pc_axiom: List[bool] = []
         self.alloc_cls: Dict[int, ClassInfo] = {}
         self.bounded: set = set()
+        self.merged_dicts: Dict[int, Any] = {}
         self.canon_map: Dict[int, Any] = {}
         self.lazy_branching = False
         self.model_cache: List[Any] = []
